@@ -35,9 +35,16 @@ class Lock:
         self.f.close()
 
 
-def run(cmd, cwd=None, stdin=None, timeout=None, env=None):
+def _limit_mem(gb):
+    def f():
+        import resource
+        resource.setrlimit(resource.RLIMIT_AS, (gb << 30, gb << 30))
+    return f
+
+
+def run(cmd, cwd=None, stdin=None, timeout=None, env=None, mem_gb=None):
     p = subprocess.run(cmd, cwd=cwd, input=stdin, stdout=subprocess.PIPE, stderr=subprocess.PIPE,
-                       timeout=timeout, env=env or ENV)
+                       timeout=timeout, env=env or ENV, preexec_fn=_limit_mem(mem_gb) if mem_gb else None)
     return p.returncode, p.stdout.decode(errors="replace"), p.stderr.decode(errors="replace")
 
 
@@ -158,14 +165,14 @@ def write_replay(prop_id, name, content):
     return p
 
 
-def run_pair(mode, script_text, harness_env=None, timeout=1200, driver_mode=None):
+def run_pair(mode, script_text, harness_env=None, timeout=1200, driver_mode=None, mem_gb=None):
     """Feed the same script to the real library (harness) and the model (driver).
     Returns (harness_lines, model_lines, harness_rc)."""
     env = dict(ENV)
     if harness_env: env.update(harness_env)
     data = script_text.encode()
     try:
-        rc, hout, herr = run([HBIN, mode], stdin=data, timeout=timeout, env=env)
+        rc, hout, herr = run([HBIN, mode], stdin=data, timeout=timeout, env=env, mem_gb=mem_gb)
     except subprocess.TimeoutExpired:
         rc, hout, herr = 124, "", "timeout"
     rc2, mout, merr = run([DRIVER, driver_mode or mode], stdin=data, timeout=timeout)
